@@ -18,15 +18,19 @@ for p in sorted(glob.glob(os.path.join(ROOT, "seeded", "*", "meta.json"))):
     summ = re.sub(r"\s+", " ", m.get("summary") or "")[:170]
     files = ", ".join(f.replace("src/", "") for f in (m.get("files_changed") or []))
     rows.append(f"| {name} | {files} | {summ} | {chk.get('verdict','?')}: {first} | {also or '–'} | {silent or '–'} |")
-text = f"""Eighty changes were produced in two rounds by fresh sub-agents (round 1: twenty agents, two
-changes per property; round 2: twenty agents, two more per property, told which
+text = f"""One hundred and twenty changes were produced in three rounds by fresh sub-agents (twenty agents per
+round, two changes per property and round; from round 2 on each agent was told which
 ideas round 1 had used and asked for different functions, drivers and kinds of mistake), each given
 only the property text and its own scratch worktree of `/repo` — nothing from `/verif`.  Each change
 compiles, passes the 57 existing tests, and comes with a demonstration that fails with it and passes
 without it; all of that was re-confirmed by `tools/seed_eval.py` in a scratch worktree (build with and
 without the guard, suite, demonstration both ways) before the checks were run against it.  They are kept
 under `seeded/<id>/` (`patch.diff`, the demonstration, `meta.json` with what was run and the verdicts;
-ids `Cxx-1/2` = round 1, `Cxx-3/4` = round 2).
+ids `Cxx-1/2` = round 1, `Cxx-3/4` = round 2, `Cxx-5/6` = round 3, whose agents were additionally asked
+for changes that would slip past a differential test driven by mostly well-formed random sequences
+and a simple device model: single feature combinations or transports, behaviour after an error
+path, numeric boundaries, interleavings of two queues or of blocking and non-blocking calls, unusual
+but legal device behaviour, memory-safety-relevant and ordering code, less-travelled files).
 
 Round 1, first pass: 37 of 40 were reported with a concrete replay, 2 as `no-failing-input-found`
 (C07-1: available index read back from device memory — only the model disagreed; C08-2: queue flags
@@ -54,7 +58,27 @@ was missing and what was added (all in the harness; no oracle was loosened):
 | C16-4 `receive_wait` completes whatever token is reported first | blocking receive was never issued behind a pending completion | it is now; expected `WrongToken`, nothing consumed |
 | C08-3 `finish_init` writes `get_status() \| DRIVER_OK` | the model transport's status register read back exactly what was written (only the extra `get_status` call showed, as a model disagreement) | the register reads back with FEATURES_OK cleared or DEVICE_NEEDS_RESET raised: the driver's status writes must not depend on it |
 
-All 80 are now reported with a concrete replay by the check of their own property.  The last two
+Round 3, first pass: 23 of 40 concrete, 2 `no-failing-input-found` (C03-5, C10-6), 15 missed:
+
+| missed | why | added |
+|---|---|---|
+| C01-5 `set_buf` stores `buf.len() as u32` | no buffer of 4 GiB or more was ever submitted | one case in 40 ends with a 4 GiB + 16 byte buffer (lazily mapped, never touched): refusal or clean panic, never publication |
+| C03-5 `add` drops `needed > SIZE` (indirect queues accept chains longer than the queue) | only the model disagreed | oracle: no accepted chain is longer than the queue |
+| C04-5 `add_indirect` returns `Err` for an empty buffer after sharing the earlier ones | empty buffers were generated on the direct path only | also on the indirect path (accepted today with a zero-length table entry; a refusal must have no side effects) |
+| C05-6 vsock notifies its receive queue before DRIVER_OK | buffers posted during construction created no obligation | at DRIVER_OK every queue with pending entries and an unsuppressed device must be notified before the constructor returns |
+| C07-5 `pcm_xfer` never returns after a failure | C07 did not run the sound stream | it does (spin budget ⇒ "does not return") |
+| C07-6 / C11-6 PCI config bounds check rounds the wrong way / saturating subtraction | only C13 ran the type × offset × window sweep | C07 and C11 include C13's bounds streams |
+| C08-5 empty frame sent with the 12-byte header in legacy mode | the header size was only read through `fill_buffer_header` | frames of 0, 3 and 64 bytes are sent and the device-readable byte count is checked |
+| C09-5 `pcm_xfer_ok` frees its buffers before `pop_used` succeeds | the heap was only watched during construction and drop | heap watched during `pcm_xfer_ok` polls (before completion, out of order) |
+| C09-6 net `receive` keeps a stale slot after a runt frame; `recycle_rx_buffer` then frees the posted buffer | same | heap watched during `recycle_rx_buffer`; C09 includes the net stream |
+| C10-6 probe accepts a DeviceID with a non-zero upper half | the probe oracle did not demand rejection of unknown types (model disagreement only) | it does |
+| C14-6 `can_pop` uses `<` | C14 never completed 65 536 requests | `blk-wrap`: 66 000 non-blocking reads on one device |
+| C19-5 input returns `*event` after re-queuing the buffer | needs in-place sharing and a device that writes at once | the in-place platform scribbles over a device-writable buffer at share time (its contents are the device's from then on); half of the event-queue cases run in place |
+| C19-6 sound event queue gets INDIRECT/EVENT_IDX swapped | only visible with exactly one of the two features and after 32 768 events | `wrap-sound` floods with exactly one ring feature; oracle: every re-post is announced to an unsuppressed device |
+| C20-5 9P tag length read outside `read_consistent` | C20 never changed the configuration mid-read (C13 did) | C20 includes the 9P cases of C13's changing-configuration stream |
+
+Three check bugs surfaced on the way and were fixed (§9, 13–15).  All 120 are now reported with a
+concrete replay by the check of their own property.  The last two
 columns come from running further related checks against a change (`tools/seed_cross.py`, run for part
 of round 1 only); † = reported as `no-failing-input-found`.
 
